@@ -862,6 +862,8 @@ func (o *c05Oracle) scalarNumber(k string, f *c05Fld, text, route string, fv ref
 			got = new(big.Int).SetInt64(fv.Int())
 		}
 		if got.Cmp(n) != 0 {
+			// (F14, repaired by e119220: through YAML a float-notation integer beyond 2^53 used to be
+			// stored as the shortest decimal of its float64; any such difference is a violation)
 			o.mismatch("", "%s: document %s, field %s", p, text, got.String())
 		}
 	}
